@@ -306,6 +306,11 @@ class GuardDefinition:
             self.type in COMPOSITE_GUARD_TYPES and not isinstance(config, str)
         )
         self.is_state_in = self.type == STATE_IN_GUARD_TYPE
+        if not isinstance(children_cfg, (list, tuple)):
+            raise InvalidConfigError(
+                f"❌ Guard '{self.type}' has invalid nested guards of type "
+                f"'{type(children_cfg).__name__}'. Expected a list."
+            )
         self.children = [GuardDefinition(c) for c in children_cfg]
 
         if self.is_composite and not self.children:
